@@ -266,7 +266,9 @@ def _check_direction(an, V, iid, consumer_role, direction, script, facts, handle
                     V('spurious_error', 'interaction %d dir %s errored (%s) though the producer did not fail'
                       % (iid, direction, e.get('err')), e['seq'], **facts)
             else:
-                if len(delivered) != len(planned):
+                awaited = consumer_role == 'requester' and an.ia[iid].get('api') == 'awaitable'
+                if len(delivered) != len(planned) and not awaited:
+                    # (the awaitable wrapper raises the error and, by its API shape, hands over no partial list)
                     # every element handed to the library before the failure is still delivered, in
                     # order, before the error (an ERROR frame must not overtake queued elements)
                     V('error_overtook', 'interaction %d dir %s: error delivered after %d of the %d elements emitted before it'
@@ -902,8 +904,8 @@ def _c08_wire_rules(an, V):
 def oracle_c10(an):
     out = []
     V = lambda cls, msg, seq=None, **f: out.append(Violation('C10', 'C10.' + cls, msg, seq, **f))
-    if not an.fault_free or not an.stopped or an.world.incomplete:
-        return out
+    if not an.fault_free or not an.stopped or an.world.incomplete or an.world.stats.get('not_drained'):
+        return out  # not quiescent: frames still queued or in flight
     for ev in an.by_kind['final']:
         if ev['streams']:
             kinds = [_describe_sid(an, ev['ep'], sid) for sid in ev['streams']]
@@ -1007,17 +1009,6 @@ def oracle_c13(an):
                           ev['seq'], **facts0)
                     an.world.probe('alloc_failure')
                     resync = True
-                continue
-            if k == 'fut' and ev.get('ep') == ep and ev.get('state') == 'sent' and ev.get('role') == 'requester':
-                iid = ev.get('iid')
-                if iid in an.sid_of and an.sid_of[iid][0] == ep and an.ia[iid]['kind'] == 'fnf':
-                    st.pop(an.sid_of[iid][1], None)
-                continue
-            if k == 'tx' and ev['ep'] == ep:
-                f = ev['f']
-                x = st.get(f['sid'])
-                if x is not None and x['kind'] == 'fnf' and not f.get('follows'):
-                    x['must'] = False
                 continue
             if k == 'rx' and ev['ep'] == ep:
                 f = ev['f']
